@@ -34,8 +34,14 @@ def gen_history(r, tier):
         elif c < 0.6:
             x, y, z = gennb.gen_triple(r, rich=False)
             ops.append({'kind': 'merge', 'base': x, 'local': y, 'remote': z, 'strategy': r.choice(['inline', 'use-base', 'union', 'mergetool'])})
-        elif c < 0.8:
+        elif c < 0.7:
             ops.append({'kind': 'targets', 'shown': [r.random() < 0.6 for _ in range(6)]})
+        elif c < 0.8:
+            # the same configuration reached through the command-line flags: a subset of the six parts, all positive or
+            # all negative, incl. no flag at all and all six (which is how a caller selects everything again)
+            names = r.sample(FLAG_NAMES, r.choice([0, 1, 1, 2, 3, 6, 6]))
+            val = r.random() < 0.6
+            ops.append({'kind': 'flags', 'given': {n: val for n in names}})
         elif c < 0.9:
             m = {}
             keysets = {'/metadata': [['kernelspec'], ['language_info', 'custom'], ['custom']],
@@ -173,7 +179,21 @@ def everywhere_pair(r):
                                            'application/json': {'k': [1, 3]}}
     return a, b
 
-def is_config(o): return o['kind'] in ('targets', 'ignores', 'reset')
+def is_config(o): return o['kind'] in ('targets', 'ignores', 'reset', 'flags')
+
+FLAG_NAMES = ('sources', 'outputs', 'attachments', 'metadata', 'id', 'details')
+def flags_shown(o):
+    """documented meaning of the diff flags (nbdime/args.py): the flags given are all positive or all negative; the parts
+    not mentioned get the opposite value; no flag at all leaves the configuration alone (None)"""
+    g = o['given']
+    if not g: return None
+    default = not next(iter(g.values()))
+    return [g.get(n, default) for n in FLAG_NAMES]
+def as_targets(o):
+    if o['kind'] == 'flags':
+        sh = flags_shown(o)
+        return {'kind': 'noop'} if sh is None else {'kind': 'targets', 'shown': sh}
+    return o
 
 def canon_result(x):
     """conflict-marker cells get a fresh random id from nbformat on every run: not part of the result"""
@@ -203,6 +223,7 @@ def spec_config(ops):
                 elif isinstance(cur, tuple): t[p] = cur
                 else: t[p] = sorted(set(cur or []) | set(v))
     for o in ops:
+        o = as_targets(o)
         if o['kind'] == 'reset': t.clear()
         elif o['kind'] == 'ignores': set_ignores(o['mapping'])
         elif o['kind'] == 'targets':
@@ -220,8 +241,9 @@ def coq_differ(c):
     if c[0] == 'DfIgnoreKeys': return '(DfIgnoreKeys %s [%s])' % (coq_differ(c[1]), '; '.join(coq_str(k) for k in c[2]))
     return c[0]
 def coq_op(o):
+    o = as_targets(o)
     k = o['kind']
-    if k in ('diff', 'gdiff', 'merge', 'gmerge'): return '(OpDiff [%s])' % '; '.join(coq_str(p) for p in PROBES[::2])
+    if k in ('diff', 'gdiff', 'merge', 'gmerge', 'noop'): return '(OpDiff [%s])' % '; '.join(coq_str(p) for p in PROBES[::2])
     if k == 'targets': return '(OpTargets %s)' % ' '.join('true' if x else 'false' for x in o['shown'])
     if k == 'reset': return 'OpReset'
     ents = []
